@@ -361,6 +361,9 @@ func UtxoValidateInsufficientCollateral(
 	minCollateral := new(
 		big.Int,
 	).Mul(fee, new(big.Int).SetUint64(uint64(tmpPparams.CollateralPercentage)))
+	// Round up: the requirement is balance * 100 >= fee * percentage, so a
+	// fractional minimum must not be truncated in the transaction's favour
+	minCollateral.Add(minCollateral, big.NewInt(99))
 	minCollateral.Div(minCollateral, big.NewInt(100))
 	if totalCollateral.Cmp(minCollateral) >= 0 {
 		return nil
